@@ -50,6 +50,7 @@ var sharedRules = map[string][]struct{ as, from, rule, why string }{
 		{"C01-S3", "C17", "C17-R1", "filters and topics meet only if both are mount-qualified"},
 		{"C01-S4", "C17", "C17-R5", "two filters of one SUBSCRIBE sharing storage become the same filter"},
 		{"C01-S5", "C11", "C11-R6", "clean-up after a lost peer must remove that peer's subscriptions, not this node's"},
+		{"C01-S6", "C14", "C14-R5", "the recipients of a publish read back from the log are the sessions of the matching subscriptions this node hosts, each of them"},
 	},
 	"C02": {
 		{"C02-S1", "C01", "C01-R4", "an acknowledged publish must be written once to every registered recipient"},
@@ -97,6 +98,7 @@ var sharedRules = map[string][]struct{ as, from, rule, why string }{
 		{"C11-S2", "C08", "C08-R3b", "one bad entry must not hide the removals that follow it in a batch"},
 		{"C11-S3", "C08", "C08-R6", "removed records are never listed"},
 		{"C11-S4", "C17", "C17-R3", "the teardown finds its own record by mount point and client identifier"},
+		{"C11-S5", "C12", "C12-R1", "displacement ends the earlier session: its record leaves every node's view only if the take-over deletes that very record"},
 	},
 	"C12": {
 		{"C12-S1", "C08", "C08-R3", "the displaced record's removal and the new record must both survive the merge"},
